@@ -24,7 +24,7 @@ RULE = ("random histories (<= 8 steps quick, <= 20 thorough) over {backward, mtl
         "common leaves; non-trivial = the history contains create-then-accumulate on some leaf; distinct = history sha1")
 ASSUMPTIONS = ["graphs without retain_grad() tensors", "aggregator outputs observed through a recording proxy (shadow model adds the "
                "very slice that was returned)"]
-N = {"quick": 480, "thorough": 36000}
+N = {"quick": 480, "thorough": 144000}
 LEN = {"quick": 8, "thorough": 20}
 DETERMINISTIC = ["Constant", "Mean", "Sum", "UPGrad", "DualProj", "TrimmedMean", "Krum", "MGDA", "IMTLG", "AlignedMTL", "ConFIG"]
 
